@@ -391,6 +391,7 @@ async def live_one(acc, clock, kind, mal, must_all, chunking, cid):
             await settle()
         def reacted():
             return bool(ep.rx) or len(ep.vf_tap) > tap0 or ep.connection_state <= ConnectionState.DISCONNECTED_BROKEN_CONN
+        processed_when_all_bytes_were_in = list(processed)      # before any further traffic: nothing may wait for "the next read"
         if not reacted():
             # give it more valid traffic before calling it wedged
             more = [peer.frame("D", None, [(11, f"m{i}"), (58, "y" * 60)]) for i in range(8)]
@@ -445,7 +446,7 @@ async def live_one(acc, clock, kind, mal, must_all, chunking, cid):
         # so nothing tells the decoder where that neighbour starts.
         if ep.connection_state > ConnectionState.DISCONNECTED_BROKEN_CONN and not kind.startswith("junk-prefix:"):
             acc.oracle("live-reader-following-frames-reach-the-session-layer")
-            cnt = [sum(1 for r in processed if r == t) for t in tail]
+            cnt = [sum(1 for r in processed_when_all_bytes_were_in if r == t) for t in tail]
             w["tail_frames_processed"] = cnt
             first = 0 if mal.endswith(b"\x01") else 1
             if first == 0:
